@@ -238,16 +238,28 @@ def _timeout_phase():
     """Time-out terminations: every timer position of the C14 harness at pre-emption bound 0 (the abandoned thread
     runs only when the grader is done, or never: blocked student).  Only the C05 clauses are judged here."""
     from checks import c14
-    inner = c14.make_body(c14._sub('busy', 'printing', 'block', 'slow_error'), 64, True)
+    inner = c14.make_body(c14._sub('busy', 'printing', 'block', 'slow_error', 'close_then_spin'), 40, True)
     keep = ('patch state not clean', 'exception escapes')
 
     def body(ctx):
-        inner(ctx)
+        # one deviation per schedule: a pre-emption, or pedal failing while it records the output of the
+        # abandoned execution (fault at the entry of append_output)
+        INJ.arm(ctx)
+        try:
+            inner(ctx)
+        finally:
+            INJ.disarm()
+        ctx.fails[:] = [(sig, det) for sig, det in ctx.fails
+                        if not (sig.get('symptom', '').startswith('exception escapes') and det.get('exception') == 'InjectedFault')]
         ctx.fails[:] = [(sig, det) for sig, det in ctx.fails if any(k in sig.get('symptom', '') for k in keep)]
         for sig, det in ctx.fails:
             sig['termination'] = 'timeout'
-    return Phase('timeouts', body, bound=0, setup=c14._setup, chunk=100, horizon_s=60,
-                 describe='time-out terminations (C14 scheduler harness, every timer position, no pre-emption)')
+    def setup():
+        c14._setup()
+        _setup()
+    return Phase('timeouts', body, bound=1, setup=setup, chunk=100, horizon_s=60,
+                 describe='time-out terminations (C14 scheduler harness): every timer position with at most one '
+                          'pre-emption or one fault while recording the abandoned output')
 
 
 def bounds(tier):
